@@ -35,8 +35,9 @@ ASSUMPTIONS = [
 ]
 FLOORS = {
     "quick": {"distinct_nontrivial": 10000, "functions_called": 800, "rec_evaluations": 200000, "decided_memberships": 200000, "witnesses_minimised": 1,
-              "star_tuple_const_subscript_evaluations": 0, "stored_condition_branch_evaluations": 0},
-    "thorough": {"distinct_nontrivial": 40000, "functions_called": 8000, "rec_evaluations": 1000000},
+              "star_tuple_const_subscript_evaluations": 10000, "stored_condition_branch_evaluations": 7500},
+    "thorough": {"distinct_nontrivial": 40000, "functions_called": 8000, "rec_evaluations": 1000000,
+                 "star_tuple_const_subscript_evaluations": 80000, "stored_condition_branch_evaluations": 60000},
 }
 EXCUSING_CODES = {
     "incompatible_argument", "incompatible_call", "incompatible_assignment", "incompatible_return_value", "unsupported_operation",
